@@ -288,3 +288,57 @@ pub fn block_history(scn: &Scn, ctx: &mut Ctx, model: &dyn Fn(&Scn, &[u8]) -> (V
     }
     Verdict::Ok
 }
+
+use crate::obj::BlockObj;
+use crate::scn::Op;
+
+/// feed `data` (whole units of obj.bs()) to a block object through the piece list `ops`
+/// (only ops with k == "blocks" and who == `who`), used cyclically; a piece of size 0 in the
+/// list is executed once (as an empty call) and then skipped.  Returns the output.
+pub fn drive_pieces(obj: &mut dyn BlockObj, data: &[u8], ops: &[Op], who: u8, scn: &Scn, ctx: &mut Ctx) -> Vec<u8> {
+    let g = obj.bs();
+    assert!(data.len() % g == 0, "harness: drive_pieces needs whole blocks");
+    let pieces: Vec<&Op> = ops.iter().filter(|o| o.k == "blocks" && o.who == who).collect();
+    let mut out = Vec::with_capacity(data.len());
+    let mut done = 0usize;
+    let mut i = 0usize;
+    let mut zero_budget = pieces.len();
+    while done < data.len() || (i < pieces.len() && zero_budget > 0) {
+        let (n, via, seed) = if pieces.is_empty() {
+            ((data.len() - done) / g, crate::obj::VIA_BLOCKS, 0u64)
+        } else {
+            let p = pieces[i % pieces.len()];
+            (p.n as usize, p.via % N_VIA, p.p as u64 ^ (i as u64))
+        };
+        i += 1;
+        let n = n.min((data.len() - done) / g);
+        if n == 0 {
+            if zero_budget == 0 {
+                // only empty pieces left in the cycle: finish with one multi-block call
+                let rest = data.len() - done;
+                if rest == 0 {
+                    break;
+                }
+                let mut o = scn.dirt(done, rest);
+                obj.proc(crate::obj::VIA_BLOCKS, 0, &data[done..], &mut o);
+                out.extend(o);
+                break;
+            }
+            zero_budget -= 1;
+            if done >= data.len() && i >= pieces.len() {
+                break;
+            }
+        } else {
+            zero_budget = pieces.len();
+        }
+        ctx.sig.u((who as u64) << 40 | (via as u64) << 32 | n.min(40) as u64);
+        let mut o = scn.dirt(done, n * g);
+        obj.proc(via, seed, &data[done..done + n * g], &mut o);
+        out.extend(o);
+        done += n * g;
+        if done >= data.len() && i >= pieces.len() {
+            break;
+        }
+    }
+    out
+}
